@@ -138,6 +138,7 @@ func main() {
 				map[string]any{"scenario": st.Name, "choices": f.Choices})
 		}
 	}
+	racePass(rep, id, tier)
 	rep.Set("distinct_nontrivial", totalOutcomes)
 	rep.Set("rule", pd.rule+"; 'states' counts complete schedules executed, 'transitions' is an upper estimate schedules x decision points")
 	rep.Assumption("context switches only immediately before lock acquisitions (and Touch points): sufficient when all shared accesses are inside critical sections; unsynchronised memory is left to the separate free-running -race pass (auxiliary)")
@@ -193,6 +194,46 @@ func absorbSeq(rep *rt.Report, st *seq.Stats) {
 	for _, v := range st.Violations {
 		rep.Violate(fmt.Sprintf("[%s] %v => %s", st.Name, v.Hist, v.Msg), map[string]any{"run": st.Name, "history": v.Hist, "ops": v.Raw})
 	}
+}
+
+// racePass runs the auxiliary free-running -race binary (same scenario bodies, real package sync).
+// It samples schedules; a report of the Go race detector is a true data race and is reported as a
+// violation, silence proves nothing beyond the schedules that happened to run.
+func racePass(rep *rt.Report, id string, tier rt.Tier) {
+	bin := strings.Replace(os.Args[0], "mcsched", "mcrace", 1)
+	if _, err := os.Stat(bin); err != nil {
+		rep.Set("auxiliary_race_pass", "not built (no cgo / -race unavailable): the data-race clause is then covered only by the Touch points inside the exploration")
+		return
+	}
+	iters := "150"
+	if tier == rt.Thorough {
+		iters = "3000"
+	}
+	cmd := exec.Command(bin, id, iters)
+	cmd.Env = append(os.Environ(), "GORACE=halt_on_error=1 exitcode=66")
+	var stderr strings.Builder
+	cmd.Stderr = &stderr
+	out, err := cmd.Output()
+	res := map[string]any{"iterations_per_scenario": iters, "note": "auxiliary, free-running, samples schedules; not the deciding step"}
+	var parsed map[string]any
+	if json.Unmarshal(out, &parsed) == nil {
+		res["result"] = parsed
+	}
+	if err != nil {
+		report := stderr.String()
+		if len(report) > 3000 {
+			report = report[:3000]
+		}
+		res["failed"] = err.Error()
+		if strings.Contains(report, "DATA RACE") {
+			rep.Violate("auxiliary free-running -race pass: the Go race detector reported a data race:\n"+report, map[string]any{"race_report": report})
+		} else if parsed != nil {
+			rep.Violate(fmt.Sprintf("auxiliary free-running pass: scenario oracle failed: %v", parsed["judge_failures"]), map[string]any{"result": parsed})
+		} else {
+			rt.HarnessError("race pass: %v: %s", err, report)
+		}
+	}
+	rep.Set("auxiliary_race_pass", res)
 }
 
 func maxInt(a, b int) int {
